@@ -864,8 +864,42 @@ def lock_excludes(case):
         io = ln.get("obs", {})
         if io.get("panic") or io.get("hang"):
             return [dict(step=idx, what="lock-stress-" + ("panic" if io.get("panic") else "hang"), detail=dict(cmd=strip(ln), obs=io))]
-        if io.get("overlaps") or io.get("lostUpdates") or io.get("refused"):
+        if io.get("overlaps") or io.get("lostUpdates") or io.get("refused") or io.get("leaks"):
             return [dict(step=idx, what="lock-does-not-exclude", detail=dict(cmd=strip(ln), obs=io))]
+    return []
+
+
+def doc_refs_unique(case):
+    """C15 for documents: distinct elements never share an identifier.  In every observed node table of a document no
+    identifier is referenced from two places (two keys, two slots, or a key and a slot), every node that is present names
+    the parent that references it, and no identifier occurs twice in the table."""
+    for idx, (ln, mo) in enumerate(case):
+        io = ln.get("obs", {})
+        d = io.get("dump")
+        if not isinstance(d, dict) or "nodes" not in d:
+            continue
+        nodes = d["nodes"]
+        ids = [json.dumps(n.get("c")) for n in nodes]
+        if len(set(ids)) != len(ids):
+            return [dict(step=idx, what="identifier-twice-in-node-table", detail=dict(cmd=strip(ln)))]
+        by_id = dict(zip(ids, nodes))
+        seen = {}
+        for n in nodes:
+            me = json.dumps(n.get("c"))
+            refs = []
+            if n.get("t") == "O":
+                refs = [(k, json.dumps(v)) for k, v in (n.get("m") or {}).items()]
+            elif n.get("t") == "A":
+                refs = [(i, json.dumps(sl[1])) for i, sl in enumerate(n.get("n") or [])]
+            for where, cid in refs:
+                if cid in seen:
+                    return [dict(step=idx, what="identifier-referenced-from-two-places",
+                                 detail=dict(cmd=strip(ln), id=cid, first=seen[cid], second=[me, where]))]
+                seen[cid] = [me, where]
+                ch = by_id.get(cid)
+                if ch is not None and json.dumps(ch.get("p")) != me:
+                    return [dict(step=idx, what="child-names-another-parent",
+                                 detail=dict(cmd=strip(ln), id=cid, parent=me, child_parent=ch.get("p")))]
     return []
 
 
@@ -920,4 +954,4 @@ def hash_unique(case):
 
 ORACLES = dict(rt_converge=rt_converge, usable_after_refusal=usable_after_refusal, hash_unique=hash_unique, snapshot_replay=snapshot_replay, goroutines_serial=goroutines_serial, fault_recovers=fault_recovers, enc_roundtrip=enc_roundtrip, patch_target=patch_target, loginv=loginv, sconverge=sconverge, refused_noop=refused_noop,
                isolation=isolation, notify=notify, contract=contract, corr=corr, spec=spec, converge=converge, err_noop=err_noop, no_panic=no_panic,
-               seq_gapless=seq_gapless, list_order=list_order, twin=twin, tx_atomic=tx_atomic, plain_doc=plain_doc, lock_excludes=lock_excludes)
+               seq_gapless=seq_gapless, list_order=list_order, twin=twin, tx_atomic=tx_atomic, plain_doc=plain_doc, lock_excludes=lock_excludes, doc_refs_unique=doc_refs_unique)
